@@ -54,6 +54,11 @@ CLAIMED = {
    note="dimension tuples enumerated: (3),(4),(2,3) quick; 12 tuples up to (2,3,4) with sizes dividing 12 thorough; ntransform 1-2 (quick) / 1-3 (thorough); all 16 flag combinations; doubles as exact reals; MKL backend, FFTW's own correctness and sizes beyond the list are outside.",
    technique="symbolic execution of clang LLVM IR (own interpreter) through the repository's ctypes wrapper with a contract model of FFTW + z3; bit-vector query for the int casts; replay against the freshly compiled library",
    design="4/C20"),
+ "C19": dict(
+   text="Index map only (equality with PySCF's own point set and Lebedev orthonormality are not applicable). The real gen_atomic_grids_cider, CiderGrids.gen_atomic_grids/build/prune_by_density_ and AtomicGridsIndexer.from_tabs/set_weights/set_idx/set_padding are executed symbolically with PySCF's primitives replaced by contract stubs (fresh radii/weights, fresh directions and angular weights per angular size, fresh spherical-harmonic symbols, get_partition = atom-ordered concatenation with fresh Becke factors, arg_group_grids = the task's permutation). z3 decides on every path: weights[k] == all_weights[idx_map[k]], coords[k] == all_coords[idx_map[k]], iatom_list[k] is the owning atom, idx_map injective and in range, size == idx_map.size + padding and aligned, padding weights are 0, and the shell tables (rad_loc, ylm_loc, ra_loc, ar_loc, ga_loc, rad_arr, ylm) describe the atom-ordered grid actually produced: every point of shell r is centre + rad_arr[r] * direction_j, carries weight 4 pi r^2 dr w_j * Becke, and its ylm row is the tabulated Y of direction j truncated to zero above the shell's degree; the same invariants after two rounds of density pruning whose kept/dropped decisions are made by solver forking.",
+   note="1-3 atoms (4 thorough) of 1-2 element types, 1-3 radial shells per element with angular sizes 1/6/14 in every order, alignment 1/4 (1/2/4/8 thorough), permutations identity/reversal/seeded shuffles (not all), pruning symbolic on 2+1 points, lmax 1-2; all PySCF primitives are stubs listed in evidence.",
+   technique="symbolic execution of the grid-construction and indexer code with contract stubs for PySCF primitives + z3 equality of symbolic coordinates/weights under the path condition; replay on the unmodified code",
+   design="4/C19"),
  "C09": dict(
    text="Aliasing: every public pure-Python entry (exponents, s2/alpha routines, all map classes, normaliser list, semilocal plan, NLDF plan, eval_xc_cider) is called with caller-owned symbolic arrays and z3 decides on every feasible path that the arrays hold the same terms afterwards. Batching/blocking: the real nr_rks/nr_uks/nr_rks_nldf/nr_uks_nldf are executed symbolically (nao=2, 2 grid points, nset=2; one block of 2 vs two blocks of 1) and compared term-by-term with separate calls on fresh objects. History: interleaved/repeated calls on one plan object and a failed-then-successful call on one kernel object against fresh objects.",
    note="PySCF primitives replaced by numpy reference implementations; generator and eval_xc_cider by contract stubs that keep the per-spin cache statefulness; real max_memory->blksize arithmetic and SDMX buffers outside.",
